@@ -12,8 +12,9 @@ from .ops import SymOps, Namespace, BindingError
 
 
 class Loop:
-    def __init__(self, invariant, variant=None, body_ensures=None, on_exit=None):
+    def __init__(self, invariant, variant=None, body_ensures=None, on_exit=None, iterates=None):
         self.invariant, self.variant = invariant, variant
+        self.iterates = iterates             # lambda S, a: clauses about a.it_, the value a for-loop iterates over (obligation at loop entry)
         self.on_exit = on_exit               # lambda eng, st: st  - ghost update when the loop is left by exhaustion / false test
         self.body_ensures = body_ensures     # lambda S, a: clauses that hold at the end of EVERY iteration (continue included)
 
@@ -69,6 +70,7 @@ class Contract:
         self.expected_dead = tuple(expected_dead)
         self.free_vars = free_vars or {}      # closure variables of a nested function: name -> type spec
         self.store_hooks = store_hooks or {}
+        self.comp_hooks = {}                  # comprehension ordinal -> hook(eng, st, iterable value, node)
         self.after_yield = None               # lambda eng, st, value: st  - ghost update after every yield
         self.opaque_sub = False               # ``a - b`` on two opaque values is set difference, not arithmetic
         self.attrs = attrs or {}              # dotted attribute expression -> handler(eng, st, fr, k, node) (properties of opaque objects)
